@@ -39,7 +39,7 @@ structure Inv3 (cfg : Cfg) (s : State) : Prop where
     (s.glog c).termAt i = some c → List.take i w.log = List.take i (s.glog c) ∨ Dead cfg s c i
   safe_at : ∀ T n, (T, n) ∈ s.elected → ∀ c i, c < T → (s.glog c).termAt i = some c →
     List.take i (s.glog T) = List.take i (s.glog c) ∨ Dead cfg s c i
-  vote_req : ∀ a w, w ∈ versions (s.nodes a) → ∀ T n, (T, n) ∈ w.votes →
+  vote_req : ∀ a w, w ∈ versions (s.nodes a) → ∀ T n, (T, n) ∈ w.votes → a = n ∨
     ∃ lt li, Msg.reqVote T n lt li ∈ s.msgs ∧
       ∀ c k i, c < T → (c, k) ∈ w.acks → i ≤ k → (s.glog c).termAt i = some c →
         Dead cfg s c i ∨ c < lt ∨ (lt = c ∧ i ≤ li)
@@ -532,6 +532,28 @@ theorem ack_w_step : ∀ n w, w ∈ versions ((apply s a).nodes n) → ∀ c k i
             · exact Or.inr h'
           · exact Or.inr h
 
+omit he in
+/-- what the volatile log of a node says about the indexes it acknowledged -/
+theorem vol_uptodate (b : NodeId) : ∀ c k i, (c, k) ∈ (s.nodes b).vol.acks → i ≤ k →
+    (s.glog c).termAt i = some c →
+    Dead cfg s c i ∨ c < (s.nodes b).vol.log.lastTerm ∨
+      ((s.nodes b).vol.log.lastTerm = c ∧ i ≤ (s.nodes b).vol.log.length) := by
+  have hvol : (s.nodes b).vol ∈ versions (s.nodes b) := by simp [versions]
+  intro c k i hk hik ht
+  have hcle := ((h1.nodes b).vers _ hvol).acks_le _ _ hk
+  have hw : List.take i (s.nodes b).vol.log = List.take i (s.glog c) ∨ Dead cfg s c i := by
+    by_cases hlt : c < (s.nodes b).vol.term
+    · exact h3.ack_w _ _ hvol c k i hk hlt hik ht
+    · left
+      have hceq : c = (s.nodes b).vol.term := by omega
+      have := h3.ack_same _ _ hvol k (hceq ▸ hk)
+      rw [← hceq] at this
+      have := congrArg (List.take i) this
+      rwa [List.take_take, List.take_take, Nat.min_eq_left hik] at this
+  rcases hw with h | h
+  · exact Or.inr (uptodate_of_take (h2.ver_log b _ hvol) h ht)
+  · exact Or.inl h
+
 theorem safe_at_step : ∀ T n, (T, n) ∈ (apply s a).elected → ∀ c i, c < T →
     ((apply s a).glog c).termAt i = some c →
     List.take i ((apply s a).glog T) = List.take i ((apply s a).glog c) ∨
@@ -579,16 +601,21 @@ theorem safe_at_step : ∀ T n, (T, n) ∈ (apply s a).elected → ∀ c i, c < 
     by_cases hex : ∃ b, b ∈ q ∧ ∃ w, w ∈ versions (s.nodes b) ∧ ∃ k, (c, k) ∈ w.acks ∧ i ≤ k
     · obtain ⟨b, hb, w, hw, k, hk, hik⟩ := hex
       have hwv := ((h1.nodes b).dur_le w hw).votes_sub _ (hdv b hb)
-      obtain ⟨lt, li, hmsg, hall⟩ := h3.vote_req b w hw _ _ hwv
-      have hcov := reqVotesCovered_spec hreq hmsg
-      -- transitivity of the up-to-date order: the candidate's log covers the request, the request
-      -- covered what the voter had acknowledged
       have hcase : Dead cfg s c i ∨ c < (s.nodes n).vol.log.lastTerm ∨
           ((s.nodes n).vol.log.lastTerm = c ∧ i ≤ (s.nodes n).vol.log.length) := by
-        rcases hall c k i hcT hk hik ht with h | h | ⟨h, hli⟩
-        · exact Or.inl h
-        · right; omega
-        · right; omega
+        rcases h3.vote_req b w hw _ _ hwv with hbn | ⟨lt, li, hmsg, hall⟩
+        · -- the candidate's own vote needs no request: every acknowledgement it ever made (in any
+          -- version) is in its volatile version, whose log is the one it leads with
+          rw [hbn] at hw
+          exact vol_uptodate hcfg h1 h2 h3 n c k i
+            (((h1.nodes n).le_vol w hw).acks_sub _ hk) hik ht
+        · have hcov := reqVotesCovered_spec hreq hmsg
+          -- transitivity of the up-to-date order: the candidate's log covers the request, the
+          -- request covered what the voter had acknowledged
+          rcases hall c k i hcT hk hik ht with h | h | ⟨h, hli⟩
+          · exact Or.inl h
+          · right; omega
+          · right; omega
       rcases hcase with h | h | ⟨h, hli⟩
       · exact Or.inr h
       · -- the candidate's last term is above `c`
@@ -680,30 +707,8 @@ theorem safe_at_step : ∀ T n, (T, n) ∈ (apply s a).elected → ∀ c i, c < 
           rw [← hl] at this
           omega
 
-omit he in
-/-- what the volatile log of a node says about the indexes it acknowledged -/
-theorem vol_uptodate (b : NodeId) : ∀ c k i, (c, k) ∈ (s.nodes b).vol.acks → i ≤ k →
-    (s.glog c).termAt i = some c →
-    Dead cfg s c i ∨ c < (s.nodes b).vol.log.lastTerm ∨
-      ((s.nodes b).vol.log.lastTerm = c ∧ i ≤ (s.nodes b).vol.log.length) := by
-  have hvol : (s.nodes b).vol ∈ versions (s.nodes b) := by simp [versions]
-  intro c k i hk hik ht
-  have hcle := ((h1.nodes b).vers _ hvol).acks_le _ _ hk
-  have hw : List.take i (s.nodes b).vol.log = List.take i (s.glog c) ∨ Dead cfg s c i := by
-    by_cases hlt : c < (s.nodes b).vol.term
-    · exact h3.ack_w _ _ hvol c k i hk hlt hik ht
-    · left
-      have hceq : c = (s.nodes b).vol.term := by omega
-      have := h3.ack_same _ _ hvol k (hceq ▸ hk)
-      rw [← hceq] at this
-      have := congrArg (List.take i) this
-      rwa [List.take_take, List.take_take, Nat.min_eq_left hik] at this
-  rcases hw with h | h
-  · exact Or.inr (uptodate_of_take (h2.ver_log b _ hvol) h ht)
-  · exact Or.inl h
-
 theorem vote_req_step : ∀ b w, w ∈ versions ((apply s a).nodes b) → ∀ T n, (T, n) ∈ w.votes →
-    ∃ lt li, Msg.reqVote T n lt li ∈ (apply s a).msgs ∧
+    b = n ∨ ∃ lt li, Msg.reqVote T n lt li ∈ (apply s a).msgs ∧
       ∀ c k i, c < T → (c, k) ∈ w.acks → i ≤ k → ((apply s a).glog c).termAt i = some c →
         Dead cfg (apply s a) c i ∨ c < lt ∨ (lt = c ∧ i ≤ li) := by
   have hext := glog_ext cfg hcfg s a h1 h2 he
@@ -731,7 +736,7 @@ theorem vote_req_step : ∀ b w, w ∈ versions ((apply s a).nodes b) → ∀ T 
     exact ⟨lt, li, by rw [mem_apply_msgs]; exact Or.inr hm, transfer_all T lt li acks hb hall⟩
   intro b w hw T n hv
   rcases versions_step s a b w hw with hw | ⟨rfl, hst, rfl⟩
-  · exact transfer T n w.acks (h3.ack_bound b w hw) (h3.vote_req b w hw T n hv)
+  · exact (h3.vote_req b w hw T n hv).imp id (transfer T n w.acks (h3.ack_bound b w hw))
   · have hbound : ∀ c k, (c, k) ∈ (s.nodes a.actor).vol.acks → k ≤ (s.glog c).length :=
       h3.ack_bound _ _ (hvol _)
     by_cases hvs : a.isVoteStep = false
@@ -739,26 +744,29 @@ theorem vote_req_step : ∀ b w, w ∈ versions ((apply s a).nodes b) → ∀ T 
       obtain ⟨hterm, _, hvotes⟩ := volAfter_votes s a hvs
       rw [hvotes] at hv
       have hTle := ((h1.nodes _).vers _ (hvol a.actor)).votes_le _ _ hv
-      obtain ⟨lt, li, hm, hall⟩ := transfer T n _ hbound (h3.vote_req _ _ (hvol a.actor) T n hv)
-      refine ⟨lt, li, hm, fun c k i hc hk hik ht => ?_⟩
-      rcases volAfter_acks_old cfg s a (h1.nodes _) he c k hk with h | ⟨h, _⟩
-      · exact hall c k i hc h hik ht
-      · omega
+      rcases h3.vote_req _ _ (hvol a.actor) T n hv with hself | hreq
+      · exact Or.inl hself
+      · right
+        obtain ⟨lt, li, hm, hall⟩ := transfer T n _ hbound hreq
+        refine ⟨lt, li, hm, fun c k i hc hk hik ht => ?_⟩
+        rcases volAfter_acks_old cfg s a (h1.nodes _) he c k hk with h | ⟨h, _⟩
+        · exact hall c k i hc h hik ht
+        · omega
     · cases a <;> simp [Action.isVoteStep] at hvs <;> simp only [volAfter, Action.actor] at hv hbound ⊢
       case crash => simp [Action.isStorage] at hst
-      case updateTerm m t => exact transfer T n _ hbound (h3.vote_req _ _ (hvol m) T n hv)
+      case updateTerm m t =>
+        exact (h3.vote_req _ _ (hvol m) T n hv).imp id (transfer T n _ hbound)
       case campaign m =>
+        -- the candidate's own vote: no request needed (none has been sent yet)
         simp only [List.mem_cons, Prod.mk.injEq] at hv
-        rcases hv with ⟨rfl, rfl⟩ | hv
-        · refine ⟨(s.nodes n).vol.log.lastTerm, (s.nodes n).vol.log.length, ?_, ?_⟩
-          · rw [mem_apply_msgs]; left; simp [newMsgs]
-          · exact transfer_all _ _ _ _ hbound
-              (fun c k i _ hk hik ht => vol_uptodate hcfg h1 h2 h3 n c k i hk hik ht)
-        · exact transfer T n _ hbound (h3.vote_req _ _ (hvol m) T n hv)
+        rcases hv with ⟨_, rfl⟩ | hv
+        · exact Or.inl rfl
+        · exact (h3.vote_req _ _ (hvol m) T n hv).imp id (transfer T n _ hbound)
       case grant m c' lt li =>
         simp only [List.mem_cons, Prod.mk.injEq] at hv
         rcases hv with ⟨rfl, rfl⟩ | hv
-        · apply transfer _ _ _ hbound
+        · right
+          apply transfer _ _ _ hbound
           simp only [enabled] at he
           refine ⟨lt, li, he.2.1, fun c k i _ hk hik ht => ?_⟩
           have hu := upToDate_spec he.2.2.2.1
@@ -766,7 +774,7 @@ theorem vote_req_step : ∀ b w, w ∈ versions ((apply s a).nodes b) → ∀ T 
           · exact Or.inl h
           · right; omega
           · right; omega
-        · exact transfer T n _ hbound (h3.vote_req _ _ (hvol m) T n hv)
+        · exact (h3.vote_req _ _ (hvol m) T n hv).imp id (transfer T n _ hbound)
 
 theorem ver_commit_step : ∀ n w, w ∈ versions ((apply s a).nodes n) →
     PrefixCommitted cfg (apply s a) w.term w.log w.commit := by
